@@ -10,3 +10,14 @@ package mempool
 //@   props C18 C08
 //@   aborts when [empty-message-confined-by-recover] len(bz) == 0
 //@   atcall ReadBinary assert [decode-is-size-limited] arg_lmt == maxMempoolMessageSize && arg_lmt > 0
+
+// admission (C19): the cache's Push is the atomic test-and-set that decides whether a transaction is new; a transaction is
+// queued only if Push took it as new, and a refused one is reported as already known. (The earlier Exists look-up is only a
+// shortcut: two submissions of the same bytes can both pass it.)
+//@ ghost gPushedNew Bool
+//@ func (*Mempool).ReceiveTx
+//@   props C19
+//@   requires mem != nil
+//@   orderonly
+//@   atcall Push set gPushedNew = result
+//@   atcall PushBack assert [queued-only-if-the-cache-took-it-as-new] calls(Push) == 1 && gPushedNew
